@@ -581,3 +581,130 @@ def gen_C16(tier, seed):
 
 GENERATORS.update({"C04": gen_C04, "C05": gen_C05, "C06": gen_C06, "C12": gen_C12, "C15": gen_C15, "C20": gen_C20,
                    "C08": gen_C08, "C09": gen_C09, "C16": gen_C16})
+
+
+# ------------------------------------------------------------------------------ floats
+import struct
+
+
+def fbits(x):
+    return struct.unpack("<Q", struct.pack("<d", x))[0]
+
+
+def gen_C18(tier, seed):
+    g = EGen(seed)
+    r = g.r
+    out = corpus("C18")
+    specials = [0.0, -0.0, 5e-324, -5e-324, 2.2250738585072014e-308, 1.0, -1.0, 0.5, 1.5, 2.0**53, 2.0**53 + 2, 2.0**53 - 1, -(2.0**53),
+                1e-9, 1e-10, 0.1, 0.3, 1e-300, -1e-300, -1e-40, 1e-20, 1e300, -1e300, 1.7976931348623157e308, -1.7976931348623157e308,
+                float("inf"), float("-inf"), float("nan"), 9.223372036854775e18, 9.223372036854776e18, 9.223372036854778e18,
+                -9.223372036854775e18, -9.223372036854776e18, 1.0341e23, -1.0341e23, 3.2768e4, 32768.0, -32768.0, 32767.999999999996]
+    for u in range(9):
+        f = UNIT_FACTORS[u]
+        vals = specials + [MAXV / f, -MAXV / f, (2.0**63) / f, -(2.0**63) / f, 1.7976931348623157e308 / f, -1.7976931348623157e308 / f]
+        for x in vals:
+            b = fbits(x)
+            for db in (-1, 0, 1):
+                bb = b + db
+                if 0 <= bb < 2**64:
+                    out.append(f"unit_mul_f64 {u} {bb}")
+        for k in (1, 2, 3, 7, 10, 59, 60, 86399, 86400, 10**6, 10**9 + 1, 2**40 + 1):
+            out.append(f"unit_mul_f64 {u} {fbits(float(k))}")
+            out.append(f"unit_mul_f64 {u} {fbits(-float(k))}")
+            out.append(f"unit_mul_f64 {u} {fbits(k + 0.5)}")
+            out.append(f"unit_mul_f64 {u} {fbits(k / 1024.0)}")
+    pool = g.parts_pool()
+    for d in pool:
+        out.append(f"to_seconds {p2(d)}")
+        for u in range(9):
+            out.append(f"to_unit {p2(d)} {u}")
+    durs10k = [parts_of(v) for v in (0, 1, -1, SEC, -SEC, NPD - 1, -NPD + 1, NPC, -NPC, 100 * NPC - 1, -100 * NPC + 1, 3 * 10**20, -3 * 10**20, 36525 * NPD + 7)]
+    for d in durs10k:
+        for x in specials:
+            out.append(f"dur_mul_f64 {p2(d)} {fbits(x)}")
+    n = budget(tier, 40000, 2000000)
+    for _ in range(n):
+        k = r.random()
+        if k < 0.35:
+            # random bit patterns, plus values near integers
+            kk = r.random()
+            if kk < 0.4:
+                b = r.getrandbits(64)
+            elif kk < 0.7:
+                b = fbits(r.choice([-1, 1]) * (r.randint(0, 10**12) + r.choice([0, 0, 0.5, 2**-20, -2**-20, 1e-9])))
+            else:
+                b = fbits(r.choice([-1, 1]) * 10 ** r.uniform(-30, 25))
+            out.append(f"unit_mul_f64 {r.randint(0, 8)} {b}")
+        elif k < 0.6:
+            d = g.rand_parts() if r.random() < 0.5 else parts_of(r.randint(-3 * 10**20, 3 * 10**20))
+            if r.random() < 0.5:
+                out.append(f"to_seconds {p2(d)}")
+            else:
+                out.append(f"to_unit {p2(d)} {r.randint(0, 8)}")
+        else:
+            d = parts_of(r.choice([r.randint(-3 * 10**20, 3 * 10**20), r.randint(-10**12, 10**12), g.rand_epoch_val()]))
+            kk = r.random()
+            if kk < 0.3:
+                b = r.getrandbits(64)
+            elif kk < 0.7:
+                b = fbits(r.choice([-1, 1]) * 10 ** r.uniform(-25, 12))
+            else:
+                b = fbits(r.choice([-1, 1]) * (r.randint(0, 1000) + r.choice([0, 0.5, 0.25, 0.1, 1e-9])))
+            out.append(f"dur_mul_f64 {p2(d)} {b}")
+    return out
+
+
+GENERATORS["C18"] = gen_C18
+
+
+def gen_C17(tier, seed):
+    g = EGen(seed)
+    r = g.r
+    out = corpus("C17")
+    vals = g.epoch_vals_pool() + [days_from_civil(y, 1, 1) * NPD + off for y in (-8100, -1000, 1, 1600, 1858, 1969, 1970, 1972, 2000, 2017, 5000, 11900)
+                                  for off in (0, 1, NPD // 2, NPD - 1)]
+    for t in INT_SCALES:
+        for v in vals:
+            e = parts_of(v) + (t,)
+            for f in ("v_jde_tai_dur", "v_jde_utc_dur", "v_jde_tt_dur", "v_mjd_tt_dur", "v_tt_j2k", "v_jde_utc_days", "v_tt_cent"):
+                out.append(f"{f} {p3(e)}")
+            for u in (3, 6):
+                for f in ("v_mjd_tai", "v_mjd_utc", "v_jde_tai", "v_unix"):
+                    out.append(f"{f} {p3(e)} {u}")
+    xs = [0.0, 15020.0, 15020.5, 51544.5, 40587.0, 2415020.5, 2451545.0, 2440587.5, 1.0, -1.0, 60000.123456789, 2460000.987654321, -678576.0, 5373484.5,
+          1e-9, 123456789.125, -3652425.0, 3652425.0]
+    for x in xs:
+        for t in INT_SCALES:
+            out.append(f"from_mjd {fbits(x)} {t}")
+            out.append(f"from_jde {fbits(x)} {t}")
+        out.append(f"from_unix_s {fbits(x)}")
+        out.append(f"from_unix_ms {fbits(x)}")
+    for d in g.small_parts_pool() + g.parts_pool()[::5]:
+        out.append(f"from_unix_d {p2(d)}")
+    for k in range(60):
+        out.append(f"from_unix_s {fbits(float(k * 86400 * 365))}")
+        out.append(f"from_unix_ms {fbits(k * 1000.5)}")
+    n = budget(tier, 30000, 1500000)
+    for _ in range(n):
+        k = r.random()
+        if k < 0.6:
+            v = r.choice([r.randint(-3 * 10**20, 3 * 10**20), g.rand_epoch_val()])
+            e = parts_of(v) + (r.choice(INT_SCALES),)
+            f = r.choice(["v_jde_tai_dur", "v_jde_utc_dur", "v_jde_tt_dur", "v_mjd_tt_dur", "v_tt_j2k", "v_jde_utc_days", "v_tt_cent",
+                          "v_mjd_tai", "v_mjd_utc", "v_jde_tai", "v_unix"])
+            if f in ("v_mjd_tai", "v_mjd_utc", "v_jde_tai", "v_unix"):
+                out.append(f"{f} {p3(e)} {r.randint(0, 8)}")
+            else:
+                out.append(f"{f} {p3(e)}")
+        elif k < 0.8:
+            x = r.choice([r.uniform(-3.6e6, 3.7e6), r.uniform(2.4e6, 2.5e6), float(r.randint(-3600000, 3700000)), r.randint(0, 10**6) / 1024.0 + 15020])
+            out.append(f"{r.choice(['from_mjd', 'from_jde'])} {fbits(x)} {r.choice(INT_SCALES)}")
+        elif k < 0.95:
+            x = r.choice([r.uniform(-3e11, 3e11), float(r.randint(-10**10, 10**10)), r.randint(0, 2**40) / 1024.0])
+            out.append(f"{r.choice(['from_unix_s', 'from_unix_ms'])} {fbits(x)}")
+        else:
+            out.append(f"from_unix_d {p2(g.rand_parts())}")
+    return out
+
+
+GENERATORS["C17"] = gen_C17
